@@ -104,7 +104,7 @@ func gen(r *rand.Rand, thorough bool, i int) []string {
 				ctr = last[key] + r.Int63n(1<<22)
 			}
 			if huge && r.Intn(3) == 0 {
-				ctr = last[key] + pick(r, []int64{1 << 46, 1<<47 - 1, 1 << 47, 1<<47 + 1, 1 << 48, 1<<48 + 1, 1<<48 + 3, 1 << 62, 1<<63 - 1 - last[key]})
+				ctr = last[key] + pick(r, []int64{1 << 46, 1<<47 - 1, 1 << 47, 1<<47 + 1, 1 << 48, 1<<48 + 1, 1<<48 + 3, 1 << 62, 1<<63 - 1 - last[key], 1104042983})
 			}
 			w := wins[a]
 			ts := w.start + r.Int63n(w.exp-w.start+1)
@@ -193,12 +193,14 @@ func fixed() [][]string {
 		// increments, an equal counter, an older counter, the same counter on another allocation and another blobber
 		with("fx1", "rm b0 0 c0 0 0 0 1 1700000000 c0 none 0", "rm b0 0 c0 0 0 0 5 1700000001 c0 none 0", "rm b0 0 c0 0 0 0 5 1700000001 c0 none 0",
 			"rm b0 0 c0 0 0 0 4 1700000001 c0 none 0", "rm b0 0 c0 0 1 0 5 1700000001 c0 none 0", "rm b0 0 c0 1 1 0 5 1700000001 c0 none 0", "rm b1 0 c0 1 0 0 5 1700000002 c0 none 0"),
-		// negation witness of the unguarded charge statement: counter delta 2^48 wraps the int64 byte count to 0
+		// the repaired finding C15:counter-delta-overflow (/repo 83c108b): counter delta 2^48 used to wrap the int64 byte count to 0; now refused
 		with("fx2", "rm c2 0 c0 1 0 0 281474976710656 1700000001 c0 none 0"),
-		// … and 2^48+1 is charged as one chunk
+		// … and 2^48+1 used to be charged as one chunk
 		with("fx3", "rm c2 0 c0 0 0 0 281474976710657 1700000001 c0 none 0"),
-		// negative wrapped byte count: conversion out of range, refused
-		with("fx4", "rm c2 0 c0 0 0 0 5 1700000001 c0 none 0", "rm c2 0 c0 0 0 0 281474976710657 1700000001 c0 none 0", "rm c2 0 c0 0 0 0 9223372036854775807 1700000001 c0 none 0"),
+		// increments just inside and beyond MaxInt64/CHUNK_SIZE
+		with("fx4", "rm c2 0 c0 0 0 0 5 1700000001 c0 none 0", "rm c2 0 c0 0 0 0 281474976710657 1700000001 c0 none 0", "rm c2 0 c0 0 0 0 9223372036854775807 1700000001 c0 none 0",
+			"rm c2 0 c0 0 0 0 140737488355333 1700000001 c0 none 0", "rm c2 0 c0 2 1 0 140737488355327 1700000001 c0 none 0", "rm c2 0 c0 2 1 0 140737488355328 1700000001 c0 none 0",
+			"lock 0 0 5000000000000000", "rm c2 0 c0 0 0 0 1104042988 1700000001 c0 none 0"),
 		// signatures
 		with("fx5", "rm c2 0 c0 0 0 0 7 1700000001 c1 none 0", "rm c2 0 c1 0 0 0 7 1700000001 c0 none 0", "rm c2 0 bad 0 0 0 7 1700000001 c0 none 0",
 			"rm c2 0 c0 0 0 0 7 1700000001 c0 ctr 8", "rm c2 0 c0 0 0 0 7 1700000001 c0 ts 1700000002", "rm c2 0 c0 0 0 0 7 1700000001 c0 alloc 1",
